@@ -27,6 +27,7 @@ import (
 // and then answers, a unary method, nothing else
 type vConvLog struct {
 	calls     map[int64]int // invocations per stream id (from the stream handed to the handler)
+	svc       map[int64]string // the service whose handler ran for the id
 	unaryReqs int           // requests unary handler bodies were run with
 	unaryRuns int
 	returns   int
@@ -34,10 +35,19 @@ type vConvLog struct {
 
 func vConvHandlers(l *vConvLog) grpchan.HandlerMap {
 	hm := grpchan.HandlerMap{}
-	hm.RegisterService(&grpc.ServiceDesc{ServiceName: "a", HandlerType: (*any)(nil),
+	// two services with the same method names: "service/method" names the handler, not "method"
+	for _, sn := range []string{"a", "b"} {
+		vConvService(hm, l, sn)
+	}
+	return hm
+}
+
+func vConvService(hm grpchan.HandlerMap, l *vConvLog, sn string) {
+	hm.RegisterService(&grpc.ServiceDesc{ServiceName: sn, HandlerType: (*any)(nil),
 		Methods: []grpc.MethodDesc{{MethodName: "u", Handler: func(srv any, ctx context.Context, dec func(any) error, _ grpc.UnaryServerInterceptor) (any, error) {
 			if ts, ok := grpc.ServerTransportStreamFromContext(ctx).(*tunnelServerTransportStream); ok {
 				l.calls[ts.streamID]++
+				l.svc[ts.streamID] = srv.(*vSvcImpl).name
 			}
 			defer func() { l.returns++ }()
 			in := &wrapperspb.BytesValue{}
@@ -50,6 +60,7 @@ func vConvHandlers(l *vConvLog) grpchan.HandlerMap {
 		Streams: []grpc.StreamDesc{{StreamName: "s", ClientStreams: true, ServerStreams: true, Handler: func(srv any, st grpc.ServerStream) error {
 			if ts, ok := st.(*tunnelServerStream); ok {
 				l.calls[ts.streamID]++
+				l.svc[ts.streamID] = srv.(*vSvcImpl).name
 			}
 			defer func() { l.returns++ }()
 			for {
@@ -63,8 +74,7 @@ func vConvHandlers(l *vConvLog) grpchan.HandlerMap {
 			}
 			return st.SendMsg(&wrapperspb.BytesValue{Value: []byte{8}})
 		}}},
-	}, &vSvcImpl{"a"})
-	return hm
+	}, &vSvcImpl{sn})
 }
 
 // S-SRV-CONV (C03 C08 C09 C13 C14 C16): the server end from its initial state,
@@ -80,7 +90,8 @@ func verifH_SrvConversation() {
 	carCtx, carCancel := context.WithCancel(context.Background())
 	defer carCancel()
 	car := &vSrvCarrier{ctx: carCtx, endErr: io.EOF}
-	log := &vConvLog{calls: map[int64]int{}}
+	log := &vConvLog{calls: map[int64]int{}, svc: map[int64]string{}}
+	wantSvc := map[int64]string{}
 	negotiated := verifBool("clientAcceptsSettings")
 	svr := &tunnelServer{stream: car, services: vConvHandlers(log), tunnelOpts: &tunnelOpts{}, clientAcceptsSettings: negotiated,
 		isClosing: func() bool { return false }, streams: map[int64]*tunnelServerStream{}, lastSeen: -1}
@@ -99,7 +110,7 @@ func verifH_SrvConversation() {
 			m = []string{"a/s", "/a/u"}[verifChoice("method", 2)]
 			rev = tunnelpb.ProtocolRevision(verifChoice("revision", 2)) // 0, 1
 		} else {
-			m = []string{"a/s", "a/nope", ""}[verifChoice("method", 3)]
+			m = []string{"a/s", "b/s", "a/nope", ""}[verifChoice("method", 4)]
 			rev = tunnelpb.ProtocolRevision(1 + verifChoice("revision", 2)) // 1, 2 (unsupported)
 		}
 		if rev == 0 {
@@ -108,7 +119,11 @@ func verifH_SrvConversation() {
 		if id > refLast {
 			refLast = id
 			opened[id] = true
-			known[id] = (m == "a/s" || m == "/a/u") && rev <= 1
+			known[id] = (m == "a/s" || m == "/a/u" || m == "b/s") && rev <= 1
+			wantSvc[id] = "a"
+			if m == "b/s" {
+				wantSvc[id] = "b"
+			}
 		} else if violationAt < 0 {
 			violationAt = len(car.script)
 		}
@@ -231,6 +246,8 @@ func verifH_SrvConversation() {
 		verifAssert(log.calls[id] <= 1, "C08.conv-at-most-one-invocation-per-id")
 		if !known[id] {
 			verifAssert(log.calls[id] == 0, "C08+C09.conv-no-handler-for-a-refused-stream")
+		} else if log.calls[id] == 1 {
+			verifAssert(log.svc[id] == wantSvc[id], "C08.conv-exactly-the-named-services-handler-whatever-ran-before-on-the-tunnel")
 		}
 		_ = afterClose
 	}
